@@ -62,6 +62,19 @@ CHECKS = {
          "memos kept warm along the path, under three flag schedules, and every cached answer afterwards is compared by TLC with the "
          "operator on the real post-state; behaviours generated from the specification by tlc -simulate are replayed as well.",
          "TLC model checking + trace validation (cached answer = operator on real state)"),
+ "C11": ("model_checking", "6 C11",
+         "TLC enumerates load_adj_dict / load_adj_matrix with every input over the pool (key order, empty rows, self / repeated "
+         "entries, duplicate side entries, every 0/1 matrix and every ragged or wrong-size shape) from pre-states with prior "
+         "links, proves the read-back lemmas for each, and every call is executed on real objects: the complete real state must "
+         "equal the specified one (universe order, new links' kind / ends / creation order, prior structure untouched, ValueError "
+         "and nothing touched on bad shapes).",
+         "TLC model checking of lemmas + trace validation (follow)"),
+ "C20": ("model_checking", "6 C20",
+         "The random module is modelled as non-determinism: TLC visits every randint draw sequence for counts 1..5/6 x connectivity "
+         "grid + default x ensurelink, checks that the sample always fits the population and the post-condition over all samples "
+         "(small counts); every draw sequence is played into the real randgraph via a scripted randint, plus a seed sweep with the "
+         "real generator (twice per seed); TLC judges no-raise, RandGraphPost, result = load_adj_dict(samples), reproducibility.",
+         "TLC model checking (RNG as nondeterminism) + trace validation"),
 }
 
 NOT_YET = {}
